@@ -645,13 +645,14 @@ example : ∀ h' c,
 
 /-! ### clone_deep over histories: reduction to ownership + one-statement footprint (extension round) -/
 
-/-- root `k` owns the set of blocks `S`: its handle lies in `S`, `S` is closed under the handles its blocks store, and no
-other root and no block outside `S` holds a handle into `S` -/
+/-- root `k` owns the set of blocks `S`: its handle lies in `S`, `S` is closed under the handles its blocks store, no
+other root and no block outside `S` holds a handle into `S`, and `S` holds allocated ids only -/
 def Iso (σ : State) (k : Nat) (S : Nat → Prop) : Prop :=
   (∀ id, handleOf (slotV σ k) = some id → S id) ∧
   (∀ id b, S id → getB σ.heap id = .ok b → ∀ v ∈ bvals b, ∀ c, handleOf v = some c → S c) ∧
   (∀ j, j ≠ k → ∀ id, handleOf (slotV σ j) = some id → ¬ S id) ∧
-  (∀ id b, ¬ S id → getB σ.heap id = .ok b → ∀ v ∈ bvals b, ∀ c, handleOf v = some c → ¬ S c)
+  (∀ id b, ¬ S id → getB σ.heap id = .ok b → ∀ v ∈ bvals b, ∀ c, handleOf v = some c → ¬ S c) ∧
+  (∀ id, S id → id < σ.heap.length)
 
 /-- the clone statement establishes ownership: in the state after an executed `root k = q.clone()` root `k` owns its blocks -/
 def clone_isolated_full : Prop :=
@@ -661,10 +662,12 @@ def clone_isolated_full : Prop :=
 
 /-- the footprint of one statement: a statement that does not mention root `k` leaves root `k`, the cells of the blocks it
 owns and the ownership itself unchanged -/
-def step_footprint_full : Prop :=
-  ∀ (σ : State) (op : Op) (k : Nat) (S : Nat → Prop), Inv σ [] → Iso σ k S → mentions k op = false →
+def StepFootprint (op : Op) : Prop :=
+  ∀ (σ : State) (k : Nat) (S : Nat → Prop), Inv σ [] → Iso σ k S → mentions k op = false →
     Iso (applyOp true σ op).1 k S ∧ slotV (applyOp true σ op).1 k = slotV σ k ∧
     ∀ id, S id → (applyOp true σ op).1.heap[id]? = σ.heap[id]?
+
+def step_footprint_full : Prop := ∀ op, StepFootprint op
 
 /-- `clone_deep_full` for a clone statement that was executed (not refused) -/
 def clone_deep_exec_full : Prop :=
@@ -676,40 +679,116 @@ def clone_deep_exec_full : Prop :=
       (slotV (run true (initState n) (ops1 ++ [.clone k q] ++ ops2)) k) = some tr
 
 /-- histories preserve an owned root: induction over the statements, each step by the one-statement footprint -/
-theorem owned_root_stable (hstep : step_footprint_full) (k : Nat) (S : Nat → Prop) (f : Nat) (tr : Tree) :
-    ∀ (ops : List Op) (σ : State), Inv σ [] → Iso σ k S → (∀ op ∈ ops, mentions k op = false) →
+theorem owned_root_stable (k : Nat) (S : Nat → Prop) (f : Nat) (tr : Tree) :
+    ∀ (ops : List Op) (σ : State), Inv σ [] → Iso σ k S → (∀ op ∈ ops, mentions k op = false ∧ StepFootprint op) →
       content f σ.heap (slotV σ k) = some tr →
       content f (run true σ ops).heap (slotV (run true σ ops) k) = some tr
   | [], _, _, _, _, hc => hc
   | op :: rest, σ, inv, iso, hm, hc => by
-    obtain ⟨iso1, hslot, hcells⟩ := hstep σ op k S inv iso (hm op (by simp))
+    obtain ⟨iso1, hslot, hcells⟩ := (hm op (by simp)).2 σ k S inv iso (hm op (by simp)).1
     obtain ⟨inv1, _, _⟩ := inv.applyOp op
     simp only [run]
-    refine owned_root_stable hstep k S f tr rest _ inv1 iso1 (fun o ho => hm o (by simp [ho])) ?_
+    refine owned_root_stable k S f tr rest _ inv1 iso1 (fun o ho => hm o (by simp [ho])) ?_
     rw [hslot]
     exact content_closed iso.2.1 hcells f _ tr iso.1 hc
 
-/-- **clone_deep, reduced to its two heap-graph facts** — machine-checked: if the clone statement establishes ownership
-(`clone_isolated_full`) and no statement touches what a root it does not mention owns (`step_footprint_full`), then after
-an executed `root k = q.clone()` no history of statements that do not mention root `k` changes the tree root `k` denotes. -/
-theorem clone_deep_reduction (hiso : clone_isolated_full) (hstep : step_footprint_full) : clone_deep_exec_full := by
-  intro n k ops1 ops2 q f tr hex hm hc
-  obtain ⟨S, iso⟩ := hiso n k ops1 q hex
+/-- a block appended by a clone, seen through its id -/
+theorem getB_appended {h y : Heap} {id : Nat} {b : Block} (hid : h.length ≤ id) (hb : getB (h ++ y) id = .ok b) :
+    some b ∈ y := by
+  rw [getB_eq, List.getElem?_append_right hid] at hb
+  exact List.mem_of_getElem? hb
+
+/-- **clone_isolated** — in the state after an executed `root k = q.clone()`, in any history, root `k` owns exactly the
+blocks the clone allocated: its handle and every handle stored in those blocks point to those blocks, and no other root
+and no other block holds a handle to any of them -/
+theorem clone_isolated : clone_isolated_full := by
+  intro n k ops1 q hex
+  obtain ⟨inv, _, _⟩ := (Inv.init n).run ops1 (initState n) rfl
+  generalize run true (initState n) ops1 = σ at hex inv ⊢
+  simp only [applyOp, targetOf, rootOp] at hex ⊢
+  cases hop : opClone σ k q with
+  | error e => rw [hop] at hex; cases hex
+  | ok σ' =>
+    simp only []
+    unfold opClone at hop
+    rcases inv.cget q with ⟨e, h1, _⟩ | ⟨src, h1, hsrc⟩
+    · rw [h1] at hop; cases hop
+    · rw [h1] at hop
+      simp only [] at hop
+      rcases cloneOK (travFuel σ.heap) σ src [] inv (Held.live inv hsrc) with h2 | ⟨h', c, h2, inv2, _⟩
+      · rw [h2] at hop; cases hop
+      · rw [h2] at hop
+        simp only [] at hop
+        obtain ⟨hslots, hk, hsub⟩ := replaceSlot_spec inv2 hop
+        obtain ⟨y, hy, hc, hfy⟩ := cloneFresh _ σ.heap.length σ.heap h' src c (Nat.le_refl _) h2
+        simp only [] at hslots hk hsub
+        refine ⟨fun id => σ.heap.length ≤ id ∧ id < h'.length, ?_, ?_, ?_, ?_, ?_⟩
+        · intro id hid
+          have : slotV σ' k = c := by simp [slotV, hslots, List.getD_eq_getElem?_getD, hk]
+          rw [this] at hid
+          exact hc id hid
+        · intro id b' hS hb' v hv cc hcc
+          obtain ⟨b, hb, hit, _⟩ := hsub.2 id b' hb'
+          have hv' : v ∈ bvals b := by simpa [bvals, hit] using hv
+          rw [hy] at hb
+          exact hfy (some b) (getB_appended hS.1 hb) v hv' cc hcc
+        · intro j hj id hid hS
+          have hsl : slotV σ' j = slotV σ j := by simp [slotV, hslots, List.getD_eq_getElem?_getD, List.getElem?_set_ne (Ne.symm hj)]
+          rw [hsl] at hid
+          have hmem : slotV σ j ∈ σ.slots := by
+            unfold slotV at hid ⊢
+            rw [List.getD_eq_getElem?_getD] at hid ⊢
+            cases hg : σ.slots[j]? with
+            | none => rw [hg] at hid; cases hid
+            | some w => exact List.mem_of_getElem? hg
+          have := inv.wf.handle_lt (Or.inl (by simpa using hmem)) hid
+          omega
+        · intro id b' hnS hb' v hv cc hcc hS
+          obtain ⟨b, hb, hit, _⟩ := hsub.2 id b' hb'
+          have hv' : v ∈ bvals b := by simpa [bvals, hit] using hv
+          have hlt : id < σ.heap.length := by
+            have := getB_lt hb
+            by_cases hh : σ.heap.length ≤ id
+            · exact absurd ⟨hh, this⟩ hnS
+            · omega
+          rw [hy, getB_append_left _ hlt] at hb
+          have := inv.wf.handle_lt (Or.inr (mem_hvals_of_getB hb hv')) hcc
+          omega
+        · intro id hS
+          rw [hsub.1]; exact hS.2
+
+/-- **clone_deep over histories** — after an executed `root k = q.clone()` (any history before it), NO history of
+statements that do not mention root `k` and whose one-statement footprint is proved (`StepFootprint`) changes the tree
+root `k` denotes — whatever those statements do to the original and to everything else. -/
+theorem clone_deep_history (n k : Nat) (ops1 ops2 : List Op) (q : Path) (f : Nat) (tr : Tree)
+    (hex : (applyOp true (run true (initState n) ops1) (.clone k q)).2 = .ok ())
+    (hm : ∀ op ∈ ops2, mentions k op = false ∧ StepFootprint op)
+    (hc : content f (run true (initState n) (ops1 ++ [.clone k q])).heap (slotV (run true (initState n) (ops1 ++ [.clone k q])) k) = some tr) :
+    content f (run true (initState n) (ops1 ++ [.clone k q] ++ ops2)).heap
+      (slotV (run true (initState n) (ops1 ++ [.clone k q] ++ ops2)) k) = some tr := by
+  obtain ⟨S, iso⟩ := clone_isolated n k ops1 q hex
   obtain ⟨inv0, _, _⟩ := (Inv.init n).run ops1 (initState n) rfl
   obtain ⟨inv1, _, _⟩ := inv0.applyOp (.clone k q)
   have hrun : run true (initState n) (ops1 ++ [.clone k q]) = (applyOp true (run true (initState n) ops1) (.clone k q)).1 := by
     rw [run_append]; rfl
   rw [run_append, hrun]
   rw [hrun] at hc
-  exact owned_root_stable hstep k S f tr ops2 _ inv1 iso hm hc
+  exact owned_root_stable k S f tr ops2 _ inv1 iso hm hc
+
+/-- **clone_deep, reduced to the one-statement footprint** — if no statement touches what a root it does not mention owns
+(`step_footprint_full`, the remaining gap), `clone_deep_exec_full` holds -/
+theorem clone_deep_reduction (hstep : step_footprint_full) : clone_deep_exec_full :=
+  fun n k ops1 ops2 q f tr hex hm hc =>
+    clone_deep_history n k ops1 ops2 q f tr hex (fun op ho => ⟨hm op ho, hstep op⟩) hc
 
 /-- ownership is satisfiable: a root holding a scalar owns the empty set; a root holding the only handle to a leaf block owns it -/
 example : Iso (initState 2) 0 (fun _ => False) := by
-  refine ⟨?_, ?_, ?_, ?_⟩
+  refine ⟨?_, ?_, ?_, ?_, ?_⟩
   · intro id h; simp [initState, slotV, handleOf] at h
   · intro _ _ h; exact h.elim
   · intro _ _ _ _ h; exact h
   · intro _ _ _ _ _ _ _ _ h; exact h
+  · intro _ h; exact h.elim
 
 /-! ## history_safe: no sequence of operations touches freed memory, leaks, or destroys a shared child twice -/
 
